@@ -7,7 +7,7 @@ import numpy as np
 
 from common import R
 
-LEAN_MODULES = ["PyomaVerif.Props.C10", "PyomaVerif.Mutants.C10", "PyomaVerif.Props.C09", "PyomaVerif.Props.WiringRun", "PyomaVerif.Props.C09All", "PyomaVerif.Props.C18MacLink"]
+LEAN_MODULES = ["PyomaVerif.Props.C10", "PyomaVerif.Mutants.C10", "PyomaVerif.Props.C09", "PyomaVerif.Props.WiringRun", "PyomaVerif.Props.C09All", "PyomaVerif.Props.C18MacLink", "PyomaVerif.Props.WiringStore", "PyomaVerif.Props.WiringClass", "PyomaVerif.Props.WiringCalls"]
 THEOREMS = [
     # C10 o C09: the labels of every class are SC_apply of the FILTERED tables it returns; stable <=> kept pole whose
     # first nearest kept pole of the previous order is within the tolerances; removed poles never stable / never reference
@@ -19,6 +19,11 @@ THEOREMS = [
     "PV.C09All.ex_distinguishes",
     # call-site wiring of the class layer, regenerated from /repo on every run (translate_wiring.py)
     "PV.WiringRun.C10_sc_apply_wiring",
+    "PV.WiringStore.C10_run_result_store",
+    "PV.WiringClass.C10_run_inherited",
+    "PV.WiringCalls.C12_ssidat_run_calls",
+    "PV.WiringCalls.C03_ssidat_ms_run_calls",
+    "PV.WiringCalls.C05_plscf_run_calls",
     # C10_from_result_tables: in every run() the three arguments of SC_apply are the very tables stored as
     # Fn_poles/Xi_poles/Phi_poles after the last mask (obligation `labOf` of the programs translated from /repo)
     "PV.C09.C09_seq_SSIdat",
